@@ -312,7 +312,7 @@ KROME_FORMATS = [
     "IDX,R,R,P,P,P,TMIN,TMAX,RATE",
     "idx,r,r,p,p,p,tmin,tmax,rate",
 ]
-KROME_LIMITS = [("NONE", -1.0), ("N", -1.0), ("10", 10.0), (">10", 10.0), (".GE.10", 10.0), ("1d1", 10.0), ("1.5d2", 150.0), ("<1d4", 1e4), (".LT.1d4", 1e4), ("2.5e3", 2500.0)]
+KROME_LIMITS = [("NONE", -1.0), ("N", -1.0), ("10", 10.0), (">10", 10.0), (".GE.10", 10.0), ("1d1", 10.0), ("1.5d2", 150.0), ("<1d4", 1e4), (".LT.1d4", 1e4), ("2.5e3", 2500.0), (".5d3", 500.0), ("<.75e2", 75.0), (".GE..25d2", 25.0)]
 KROME_NAMES = ["H", "HCO+", "H-", "E", "C2H5OH", "He+", "H2"]
 
 
@@ -386,6 +386,39 @@ def run_krome_formats(tier):
                 if bad:
                     where = "single" if len(blocks) == 1 else "switching"
                     viols.append((f"C07:krome-format:field:{'+'.join(bad)}:{fmt}:{where}", f"@format:{fmt} line {line!r}: expected { {k: exp[k] for k in bad} } got { {k: got.get(k) for k in bad} }", {"fmt": "krome", "kromeformats": True, "line": line}))
+        # (3) one network reading several KROME files: a directive holds for its own file only; a file without
+        # directive is in KROME's default layout, whatever was read before (also with another format in between)
+        dflt = KROME_FORMATS[0]
+        custom = KROME_FORMATS[1]
+        fa, fb, fk = tmp / "a.krome", tmp / "b.krome", tmp / "c.kida"
+        fa.write_text(f"@format:{custom}\n" + "\n".join(c[1] for c in byfmt[custom][:5]) + "\n")
+        fb.write_text("\n".join(c[1] for c in byfmt[dflt][:5]) + "\n")  # no directive
+        fk.write_text(F.enc_kida(F.AReaction(["C", "CH"], ["H", "C2"], 2.4e-10, 0.0, 0.0, 10, 300, 1, 3)) + "\n")
+        for order, label in (([fa, fb], "custom-then-default"), ([fb, fa], "default-then-custom"), ([fa, fk, fb], "custom-kida-default")):
+            exp_all = []
+            for f in order:
+                exp_all += [(custom, c) for c in byfmt[custom][:5]] if f == fa else [(dflt, c) for c in byfmt[dflt][:5]] if f == fb else [None]
+            try:
+                with quiet():
+                    net = Network(filelist=[str(f) for f in order], fileformats=["kida" if f == fk else "krome" for f in order])
+            except Exception as e:
+                viols.append((f"C07:krome-format:multi-file:raises:{label}", f"network reading {[f.name for f in order]} raises {e!r}", {"fmt": "krome", "kromeformats": True}))
+                continue
+            rl = net.reaction_list
+            if len(rl) != len(exp_all):
+                viols.append((f"C07:krome-format:multi-file:count:{label}", f"{[f.name for f in order]}: {len(exp_all)} data lines -> {len(rl)} reactions", {"fmt": "krome", "kromeformats": True}))
+                continue
+            for item, r in zip(exp_all, rl):
+                if item is None:
+                    continue
+                fmt, (_f, line, exp) = item
+                got = observe(r)
+                got["rate"] = getattr(r, "rate_string", None)
+                nchecked += 1
+                bad = [k for k, v in exp.items() if got.get(k) != v]
+                if bad:
+                    viols.append((f"C07:krome-format:multi-file:field:{'+'.join(bad)}:{label}", f"{label}: line {line!r} of the file {'with @format:' + fmt if fmt == custom else 'without directive'}: expected { {k: exp[k] for k in bad} } got { {k: got.get(k) for k in bad} }", {"fmt": "krome", "kromeformats": True}))
+                    break
         return len(cases), nchecked, viols
     finally:
         shutil.rmtree(tmp, ignore_errors=True)
@@ -435,7 +468,7 @@ def run(ctx):
     return {
         "evaluations": nc + nf,
         "distinct_nontrivial": nl,
-        "rule": "per format: every (reactant count, product count) layout x rotating name classes (1-char, charged, mid, column-filling, anion, surface, electron) x every type code; numbers^3 x index {1,99999} x windows on a base layout; files = every arrangement of <=4 items from {data1,data2,blank,spaces (+ KROME #,//,@format,@var,@common)} with and without trailing newline; KROME: 8 @format directives (column orders, 1-3 R, 1-5 P, with/without idx and window columns, key case) x every (reactant count, product count) x limit spellings (NONE, N, plain, >, .GE., <, .LT., d- and e-exponents), one directive per file and all directives switching inside one file in both orders",
+        "rule": "per format: every (reactant count, product count) layout x rotating name classes (1-char, charged, mid, column-filling, anion, surface, electron) x every type code; numbers^3 x index {1,99999} x windows on a base layout; files = every arrangement of <=4 items from {data1,data2,blank,spaces (+ KROME #,//,@format,@var,@common)} with and without trailing newline; KROME: 8 @format directives (column orders, 1-3 R, 1-5 P, with/without idx and window columns, key case) x every (reactant count, product count) x limit spellings (NONE, N, plain, >, .GE., <, .LT., d- and e-exponents), one directive per file, all directives switching inside one file in both orders, and one network reading a file with a directive and a file without (both orders, also with a KIDA file in between)",
         "samples": [gen_cases(f, "quick")[3][2] for f in FORMATS],
         "lines_per_format": per,
         "lines_checked": nc,
